@@ -1121,6 +1121,9 @@ class CircuitDAG(CircuitBase):
         :return: nothing
         :rtype: None
         """
+        if "one-qubit" not in self.node_dict:
+            # no one-qubit gate in the circuit: nothing to group
+            return
         for node in self.node_dict["Output"]:
             # traverse the circuit DAG in the reversed order
             reg_type = self.dag.nodes[node]["op"].reg_type
